@@ -23,11 +23,13 @@ type progData struct {
 
 func progCase(family string, t *gen.Term, env real.EnvSpec, envTag string) *engine.Case {
 	src := t.Render()
-	b, err := json.Marshal(progData{Term: t, Env: env})
-	if err != nil {
-		panic("harness: case not serialisable: " + err.Error())
-	}
-	return &engine.Case{Family: family, Key: envTag + "|" + src, Src: src, Data: b}
+	return &engine.Case{Family: family, Key: envTag + "|" + src, Src: src, Lazy: func() json.RawMessage {
+		b, err := json.Marshal(progData{Term: t, Env: env})
+		if err != nil {
+			panic("harness: case not serialisable: " + err.Error())
+		}
+		return b
+	}}
 }
 
 func loadProg(c *engine.Case) progData {
